@@ -41,7 +41,7 @@ func init() {
 		if os.Getenv("VERIF_FULL") != "" {
 			var w2 struct {
 				Replay struct {
-					Workload *crSpec      `json:"workload"`
+					Workload *crSpec   `json:"workload"`
 					Path     []crPoint `json:"crash_path"`
 				} `json:"replay"`
 			}
